@@ -362,82 +362,69 @@ func (e *Exec) evalAppend(st *State, call *ast.CallExpr) Term {
 	e.heapInit(key, et)
 	m := e.heapMetas[key]
 	inner := ArraySort(SInt, m.vsort)
+	var t Term      // appended slice (spread form)
+	var vals []Term // appended values (plain form)
+	var k Term
 	if call.Ellipsis.IsValid() {
-		t := e.eval(st, call.Args[1])
+		t = e.eval(st, call.Args[1])
 		if t.Sort != SSlice {
 			e.unsupportedf(call.Pos(), "append of a string")
 			return e.havocValue(st, "app", e.typeOf(call))
 		}
 		t = e.bind("apt", t)
-		k := SLen(t)
-		inplace := e.bindLocal("inpl", Le(Add(SLen(s), k), SCap(s)))
-		nref := e.allocRef(st, "append")
-		ncap := e.fresh("cap", SInt)
-		e.assumeGlobal(And(Ge(ncap, Add(SLen(s), k)), Le(ncap, IntLit(1<<48))))
-		// in-place frame
-		saved := st.pc
-		e.syncCtx(saved.S)
-		n0 := len(e.assumps)
-		e.addPC(st, And(inplace, Gt(k, IntLit(0))))
-		e.checkFrameRange(st, key, SRef(s), Add(SOff(s), SLen(s)), Add(SOff(s), Add(SLen(s), k)), call.Pos())
-		st.pc = saved
-		e.reparentSince(n0, saved.S)
-		h := e.heapGet(st, key)
-		// destination array after the append
-		tgtRef := Ite(inplace, SRef(s), nref)
-		tgtOff := Ite(inplace, SOff(s), IntLit(0))
-		na := e.fresh("arr", inner)
-		i := Term{"i!w", SInt}
-		oldS := Select(h, SRef(s), inner)
-		oldT := Select(h, SRef(t), inner)
-		base := Add(tgtOff, SLen(s))
-		inNew := And(Le(base, i), Lt(i, Add(base, k)))
-		inOld := And(Le(tgtOff, i), Lt(i, base))
-		val := Ite(inNew, Select(oldT, Add(SOff(t), Sub(i, base)), m.vsort),
-			Ite(inplace, Select(oldS, i, m.vsort),
-				Ite(inOld, Select(oldS, Add(SOff(s), Sub(i, tgtOff)), m.vsort), e.zeroElem(et))))
-		e.assumps = append(e.assumps, fmt.Sprintf("(assert (forall ((i!w Int)) (! (= %s %s) :pattern (%s))))",
-			Select(na, i, m.vsort).S, val.S, Select(na, i, m.vsort).S))
-		st.heap[key] = e.bindHeap(key, Store(h, tgtRef, na))
-		return e.bind("app", MkSlice(Ite(inplace, SRef(s), nref), Ite(inplace, SOff(s), IntLit(0)), Add(SLen(s), k), Ite(inplace, SCap(s), ncap)))
+		k = SLen(t)
+	} else {
+		for _, a := range call.Args[1:] {
+			vals = append(vals, e.toSort(e.evalAs(st, a, et), m.vsort))
+		}
+		if len(vals) == 0 {
+			return s
+		}
+		k = IntLit(int64(len(vals)))
 	}
-	var vals []Term
-	for _, a := range call.Args[1:] {
-		vals = append(vals, e.toSort(e.evalAs(st, a, et), m.vsort))
-	}
-	k := IntLit(int64(len(vals)))
-	if len(vals) == 0 {
-		return s
-	}
-	inplace := e.bindLocal("inpl", Le(Add(SLen(s), k), SCap(s)))
+	newLen := e.bind("aplen", Add(SLen(s), k))
+	inplace := e.bindLocal("inpl", Le(newLen, SCap(s)))
 	nref := e.allocRef(st, "append")
 	ncap := e.fresh("cap", SInt)
-	e.assumeGlobal(And(Ge(ncap, Add(SLen(s), k)), Le(ncap, IntLit(1<<48))))
-	saved := st.pc
-	e.syncCtx(saved.S)
-	n0 := len(e.assumps)
-	e.addPC(st, inplace)
-	e.checkFrameRange(st, key, SRef(s), Add(SOff(s), SLen(s)), Add(SOff(s), Add(SLen(s), k)), call.Pos())
-	st.pc = saved
-	e.reparentSince(n0, saved.S)
-	h := e.heapGet(st, key)
-	oldS := Select(h, SRef(s), inner)
-	// in-place: store into the shared backing array
-	inArr := oldS
-	for j, v := range vals {
-		inArr = Store(inArr, Add(SOff(s), Add(SLen(s), IntLit(int64(j)))), v)
+	e.assumeGlobal(And(Ge(ncap, newLen), Le(ncap, IntLit(1<<47))))
+	// branch 1: enough capacity, the shared backing array is written
+	a := st.clone()
+	e.addPC(a, inplace)
+	if !a.dead {
+		dst := MkSlice(SRef(s), SubOff(s, SLen(s)), k, Sub(SCap(s), SLen(s)))
+		e.checkFrameRange(a, key, SRef(s), SOff(dst), Add(SOff(dst), k), call.Pos())
+		if t.S != "" {
+			e.writeRange(a, et, dst, t, k, call.Pos())
+		} else {
+			for j, v := range vals {
+				e.storeElem(a, dst, et, IntLit(int64(j)), v)
+			}
+		}
 	}
-	// reallocated: fresh array with the old prefix copied
-	na := e.fresh("arr", inner)
-	i := Term{"i!w", SInt}
-	pre := Implies(And(Le(IntLit(0), i), Lt(i, SLen(s))), Eq(Select(na, i, m.vsort), Select(oldS, Add(SOff(s), i), m.vsort)))
-	e.assumps = append(e.assumps, fmt.Sprintf("(assert (forall ((i!w Int)) (! %s :pattern (%s))))", pre.S, Select(na, i, m.vsort).S))
-	newArr := na
-	for j, v := range vals {
-		newArr = Store(newArr, Add(SLen(s), IntLit(int64(j))), v)
+	// branch 2: reallocation; the old array is left untouched
+	b := st.clone()
+	e.addPC(b, Not(inplace))
+	if !b.dead {
+		h := e.heapGet(b, key)
+		zero := Term{fmt.Sprintf("((as const %s) %s)", inner, e.zeroElem(et).S), inner}
+		b.heap[key] = e.bindHeap(key, Store(h, nref, zero))
+		ns := MkSlice(nref, IntLit(0), newLen, ncap)
+		e.noFrame = true
+		e.writeRange(b, et, MkSlice(nref, IntLit(0), SLen(s), ncap), s, SLen(s), call.Pos())
+		tail := MkSlice(nref, SLen(s), k, Sub(ncap, SLen(s)))
+		if t.S != "" {
+			e.writeRange(b, et, tail, t, k, call.Pos())
+		} else {
+			for j, v := range vals {
+				e.storeElem(b, tail, et, IntLit(int64(j)), v)
+			}
+		}
+		e.noFrame = false
+		_ = ns
 	}
-	st.heap[key] = e.bindHeap(key, Ite(inplace, Store(h, SRef(s), inArr), Store(h, nref, newArr)))
-	return e.bind("app", MkSlice(Ite(inplace, SRef(s), nref), Ite(inplace, SOff(s), IntLit(0)), Add(SLen(s), k), Ite(inplace, SCap(s), ncap)))
+	mrg := e.merge([]*State{a, b})
+	*st = *mrg
+	return e.bind("app", MkSlice(Ite(inplace, SRef(s), nref), Ite(inplace, SOff(s), IntLit(0)), newLen, Ite(inplace, SCap(s), ncap)))
 }
 
 // ---------------------------------------------------------------------------
